@@ -293,8 +293,11 @@ fn check_tlv(section: &[u8]) -> Option<Mismatch> {
     });
     match r {
         Err(_) => Some(Mismatch { case: hex(&section[..section.len().min(64)]), expected: "iteration returns".into(), actual: "PANIC in TLV iteration".into() }),
-        Ok((n, same, b, e, l)) => if n > section.len() / 3 + 1 || !same || !b || !e || !l {
-            Some(Mismatch { case: format!("len={} {}", section.len(), hex(&section[..section.len().min(64)])), expected: format!("{} items, standard walk", want.len()), actual: format!("{} items, same={} as_bytes={} is_empty={} len={}", n, same, b, e, l) })
+        Ok((n, same, b, e, l)) => if n > section.len() / 3 + 1 || !same {
+            Some(Mismatch { case: format!("len={} {}", section.len(), hex(&section[..section.len().min(64)])), expected: format!("{} items, standard walk", want.len()), actual: format!("{} items, same={}", n, same) })
+        } else if !b || !e || (!l && section.len() <= 65535) {
+            // the raw-bytes view and the emptiness / length of the section (the 16-bit `len()` of a longer slice is not pinned)
+            Some(Mismatch { case: format!("len={} {}", section.len(), hex(&section[..section.len().min(64)])), expected: "as_bytes / is_empty / len describe the section".into(), actual: format!("as_bytes={} is_empty={} len={}", b, e, l) })
         } else { None }
     }
 }
